@@ -22,10 +22,11 @@ type State struct {
 	Heap    map[string]*Term
 	Ghost   map[string]*Term
 	HeapTop *Term
+	Epoch   int // bumped by every wholesale heap havoc: untouched cells then read a per-epoch constant
 }
 
 func (s *State) clone() *State {
-	n := &State{Guard: s.Guard, HeapTop: s.HeapTop,
+	n := &State{Guard: s.Guard, HeapTop: s.HeapTop, Epoch: s.Epoch,
 		Locals: make(map[*Cell]Value, len(s.Locals)),
 		Heap:   make(map[string]*Term, len(s.Heap)),
 		Ghost:  make(map[string]*Term, len(s.Ghost))}
@@ -84,6 +85,10 @@ type Proof struct {
 	strSeen     map[int]bool
 	typeInvSeen map[int]bool
 	freshRefs   map[int]bool
+	checkStores bool
+	epochs      int
+	storeCount  int
+	curPos      token.Pos
 	specSeen    map[int]bool
 	specDefs    []*Term
 	inSpecUnfold bool
@@ -126,6 +131,15 @@ func (p *Proof) heapCell(st *State, key, sortS string) *Term {
 	if t, ok := st.Heap[key]; ok {
 		return t
 	}
+	if st.Epoch > 0 {
+		// the whole heap was havocked since function entry and this cell was not touched since
+		if _, ok := p.initHeap[key]; !ok {
+			p.initHeap[key] = B.Const("H."+key, sortS)
+		}
+		t := B.Const(fmt.Sprintf("E%d.%s", st.Epoch, key), sortS)
+		st.Heap[key] = t
+		return t
+	}
 	t, ok := p.initHeap[key]
 	if !ok {
 		t = B.Const("H."+key, sortS)
@@ -133,6 +147,11 @@ func (p *Proof) heapCell(st *State, key, sortS string) *Term {
 	}
 	st.Heap[key] = t
 	return t
+}
+
+func (p *Proof) newEpoch(st *State) {
+	p.epochs++
+	st.Epoch = p.epochs
 }
 
 func objKey(t types.Type, path string) string { return typeKey(t) + path }
@@ -151,7 +170,48 @@ func (p *Proof) loadObj(st *State, rt types.Type, ref *Term, path string, ft typ
 	return v
 }
 
+// evalFieldConstraint evaluates the two-state constraint for (old, new) leaf terms of the field.
+func (p *Proof) evalFieldConstraint(fc *FieldConstraint, st *State, oldT, newT *Term) *Term {
+	var pkg *types.Package
+	if sp := p.eng.spkgs[fc.Pkg]; sp != nil {
+		pkg = sp.Pkg
+	}
+	mk := func(t *Term) Value { return build(fc.ft, func(l leafSpec) *Term { return t }) }
+	env := &CEnv{p: p, pkg: pkg, fn: p.fn, vars: map[string]cvar{"old": {mk(oldT), fc.ft}, "new": {mk(newT), fc.ft}}, st: st}
+	return env.evalBool(fc.Expr, fc.Src)
+}
+
+// assumeFieldConstraints: after cells were havocked wholesale, pre-existing objects obey the declared
+// two-state constraints.
+func (p *Proof) assumeFieldConstraints(guard *Term, before, after *State) {
+	for key, fc := range p.eng.fieldConByKey {
+		ls := leavesOf(fc.ft)
+		srt := SArr(SRef, ls[0].Sort)
+		o := p.heapCell(before, key, srt)
+		n := p.heapCell(after, key, srt)
+		if o == n {
+			continue
+		}
+		r := B.BoundVar("r", SRef)
+		body := Implies(BVUlt(r, before.HeapTop), p.evalFieldConstraint(fc, after, Select(o, r), Select(n, r)))
+		p.assume(guard, Forall([]*Term{r}, body))
+		p.assumedLib["field-constraint "+fc.Key+": "+fc.Src+" (checked at every store in functions under contract)"] = true
+	}
+}
+
 func (p *Proof) storeObj(st *State, rt types.Type, ref *Term, path string, ft types.Type, v Value) {
+	if len(p.eng.fieldConByKey) > 0 && p.checkStores && !p.freshRefs[ref.id] {
+		for _, l := range leavesOf(ft) {
+			key := objKey(rt, path+l.Path)
+			if fc := p.eng.fieldConByKey[key]; fc != nil {
+				ts := flatten(ft, v, func(x PtrV) *Term { return p.opaquePtr(st, x) })
+				cur := Select(p.heapCell(st, key, SArr(SRef, l.Sort)), ref)
+				p.storeCount++
+				goal := Or(BVUge(ref, p.heapTop0), p.evalFieldConstraint(fc, st, cur, ts[0]))
+				p.oblige(fmt.Sprintf("%s/field-constraint@%s#%d", p.fname, fc.Key, p.storeCount), "assert", p.curPos, st.Guard, goal, "store to "+fc.Key+" of a pre-existing object obeys: "+fc.Src)
+			}
+		}
+	}
 	ls := leavesOf(ft)
 	ts := flatten(ft, v, func(x PtrV) *Term { return p.opaquePtr(st, x) })
 	if len(ls) != len(ts) {
@@ -336,6 +396,17 @@ func valuesEqual(a, b Value) bool {
 		return true
 	case ArrayV:
 		y, ok := b.(ArrayV)
+		if ok && x.Vals != nil {
+			if len(x.Vals) != len(y.Vals) {
+				return false
+			}
+			for i := range x.Vals {
+				if !valuesEqual(x.Vals[i], y.Vals[i]) {
+					return false
+				}
+			}
+			return true
+		}
 		return ok && x.A == y.A
 	case TupleV:
 		y, ok := b.(TupleV)
@@ -459,6 +530,13 @@ func (p *Proof) iteValue(st *State, c *Term, a, b Value) Value {
 		y := b.(ArrayV)
 		if x.N == 0 {
 			return x
+		}
+		if x.Vals != nil {
+			nv := make([]Value, len(x.Vals))
+			for i := range x.Vals {
+				nv[i] = p.iteValue(st, c, x.Vals[i], y.Vals[i])
+			}
+			return ArrayV{N: x.N, Elem: x.Elem, Vals: nv}
 		}
 		return ArrayV{A: Ite(c, x.A, y.A), N: x.N, Elem: x.Elem}
 	case TupleV:
@@ -878,7 +956,11 @@ func (p *Proof) run(fr *Frame, args []Value, st *State) (*State, []Value) {
 				rets = append(rets, retPoint{cur, vals})
 				alive = false
 			case *ssa.Panic:
-				p.oblige(fr.siteName(in, "panic"), "panic", x.Pos(), cur.Guard, False(), "explicit panic is unreachable")
+				if why, ok := fr.allowedPanic(in); ok {
+					p.note("documented misuse panic not an obligation: " + fr.siteName(in, "panic") + " (" + why + ")")
+				} else {
+					p.oblige(fr.siteName(in, "panic"), "panic", x.Pos(), cur.Guard, False(), "explicit panic is unreachable")
+				}
 				alive = false
 			default:
 				fr.exec(in, cur)
@@ -928,6 +1010,18 @@ func (fr *Frame) edge(pending map[*ssa.BasicBlock][]*State, from, to *ssa.BasicB
 		}
 	}
 	pending[to] = append(pending[to], st)
+}
+
+func (fr *Frame) allowedPanic(in ssa.Instruction) (string, bool) {
+	if fr.con == nil || fr.con.Allows == nil {
+		return "", false
+	}
+	ord := 0
+	if m := fr.sites[in]; m != nil {
+		ord = m["panic"]
+	}
+	why, ok := fr.con.Allows[fmt.Sprintf("panic#%d", ord)]
+	return why, ok
 }
 
 // ---- loops
@@ -1013,6 +1107,7 @@ func (fr *Frame) loopHead(li *loopInfo, st *State) *State {
 			}
 		}
 		li.allHeap = true
+		p.newEpoch(n)
 	}
 	for g := range eff.ghost {
 		if old, ok := n.Ghost[g]; ok {
@@ -1025,6 +1120,7 @@ func (fr *Frame) loopHead(li *loopInfo, st *State) *State {
 	reach := B.Fresh("loop_reach", SBool)
 	n.Guard = reach
 	p.assume(reach, st.Guard)
+	p.assumeFieldConstraints(reach, st, n)
 	// automatic frame invariant: locations outside the function's modifies clause keep their entry values
 	if fr.depth == 0 && p.con != nil && !p.eng.noLoopFrame {
 		for _, fc := range p.frameClauses(st, eff) {
@@ -1181,7 +1277,10 @@ func (fr *Frame) exec(in ssa.Instruction, st *State) {
 		fr.regs[x] = PtrV{Kind: KLocal, Elem: t, Cell: cell, RootT: t, Null: False()}
 	case *ssa.Store:
 		addr := fr.val(x.Addr)
+		p.curPos = x.Pos()
+		p.checkStores = true
 		fr.store(in, st, addr, fr.val(x.Val), x.Val.Type())
+		p.checkStores = false
 	case *ssa.UnOp:
 		fr.regs[x] = fr.unop(x, st)
 	case *ssa.BinOp:
@@ -1189,6 +1288,19 @@ func (fr *Frame) exec(in ssa.Instruction, st *State) {
 	case *ssa.FieldAddr:
 		fr.regs[x] = fr.fieldAddr(x, st)
 	case *ssa.Field:
+		if sc, ok := fr.val(x.X).(Scalar); ok {
+			// field of an opaque library struct value: an uninterpreted function of the value
+			st0 := x.X.Type().Underlying().(*types.Struct)
+			ft := st0.Field(x.Field).Type()
+			nm := "opq." + typeKey(x.X.Type()) + "." + fieldName(st0, x.Field)
+			fv := build(ft, func(l leafSpec) *Term {
+				fn := B.DeclareFun(nm+l.Path, []string{SRef}, l.Sort)
+				return B.App(fn, l.Sort, sc.T)
+			})
+			p.assume(True(), p.typeInv(st, ft, fv))
+			fr.regs[x] = fv
+			return
+		}
 		sv := fr.val(x.X).(StructV)
 		fr.regs[x] = sv.F[x.Field]
 	case *ssa.IndexAddr:
@@ -1317,7 +1429,35 @@ func (fr *Frame) phi(x *ssa.Phi, st *State) Value {
 
 func project(v Value, path []int) Value {
 	for _, i := range path {
-		v = v.(StructV).F[i]
+		sv, ok := v.(StructV)
+		if !ok {
+			panic("unsupported: field access inside an opaque library value")
+		}
+		v = sv.F[i]
+	}
+	return v
+}
+
+// projectTyped is project, but fields of opaque library values become uninterpreted functions of the value.
+func (p *Proof) projectTyped(st *State, v Value, t types.Type, path []int) Value {
+	for _, i := range path {
+		u := t.Underlying().(*types.Struct)
+		ft := u.Field(i).Type()
+		switch x := v.(type) {
+		case StructV:
+			v = x.F[i]
+		case Scalar:
+			nm := "opq." + typeKey(t) + "." + fieldName(u, i)
+			fv := build(ft, func(l leafSpec) *Term {
+				fn := B.DeclareFun(nm+l.Path, []string{SRef}, l.Sort)
+				return B.App(fn, l.Sort, x.T)
+			})
+			p.assume(True(), p.typeInv(st, ft, fv))
+			v = fv
+		default:
+			panic("unsupported: field access on this value")
+		}
+		t = ft
 	}
 	return v
 }
@@ -1364,7 +1504,7 @@ func (fr *Frame) load(in ssa.Instruction, st *State, addr Value, t types.Type) V
 		if !ok {
 			panic("unsupported: load of unknown cell " + ptr.Cell.Name)
 		}
-		return arrayProj(project(v, ptr.Path), ptr.AIdx)
+		return arrayProj(fr.p.projectTyped(st, v, ptr.RootT, ptr.Path), ptr.AIdx)
 	case KGlobal:
 		ps, ft := pathString(ptr.RootT, ptr.Path)
 		v := build(ft, func(l leafSpec) *Term { return p.heapCell(st, ptr.GKey+ps+l.Path, l.Sort) })
@@ -1480,7 +1620,7 @@ func (fr *Frame) fieldAddr(x *ssa.FieldAddr, st *State) Value {
 			rt = st0
 		}
 		return PtrV{Kind: KField, Elem: ft, Ref: ptr.Ref, RootT: rt, Path: []int{x.Field}, Null: False()}
-	case KField:
+	case KField, KGlobal:
 		np := append(append([]int{}, ptr.Path...), x.Field)
 		r := ptr
 		r.Path = np
@@ -1615,7 +1755,11 @@ func (fr *Frame) slice(x *ssa.Slice, st *State) Value {
 		goal := And(BVSle(z, lo), BVSle(lo, hi), BVSle(hi, n))
 		p.oblige(name, "slice", x.Pos(), st.Guard, goal, "array slice bounds in range")
 		ref := p.allocRef(st)
-		if at.Len() > 0 && !untrackedElem(at.Elem()) {
+		if av.Vals != nil {
+			for i, ev := range av.Vals {
+				p.storeElem(st, at.Elem(), ref, BVInt(int64(i), 64), ev)
+			}
+		} else if at.Len() > 0 && !untrackedElem(at.Elem()) {
 			ls := leavesOf(at.Elem())
 			if len(ls) == 1 {
 				key := elemsKey(at.Elem(), ls[0].Path)
